@@ -235,7 +235,7 @@ func linearComplexity(a []bool, M int) int {
 				P[i] = 0
 			}
 			for j := 0; j < M; j++ {
-				if B_[j] == 1 {
+				if B_[j] == 1 && j+N_-m < M {
 					P[j+N_-m] = 1
 				}
 			}
